@@ -6,22 +6,11 @@
 (* entry-node map; and it must not panic.                                  *)
 (* Event: [program, nodes <<node>>, edges <<[k, s, d, jmp, untaken]>> with *)
 (* 1-based indices s, d into nodes, entries <<[sub, n]>>, panic].          *)
-EXTENDS Cfg, Json, IOUtils, TLC
+EXTENDS CfgObs, Json, IOUtils, TLC
 Rec == ndJsonDeserialize(IOEnv.TRACE)
 VARIABLE l
 
-ObsEdges(e) ==
-  [i \in DOMAIN e.edges |->
-     Edge(e.edges[i].k, e.nodes[e.edges[i].s], e.nodes[e.edges[i].d], e.edges[i].jmp, e.edges[i].untaken)]
-ObsEntries(e) == {<<e.entries[i].sub, e.nodes[e.entries[i].n]>> : i \in DOMAIN e.entries}
-
-GraphOK(e, P) ==
-  LET G == Graph(P)
-      EN == EntryNodes(P)
-  IN  /\ SeqBag(e.nodes) = G.nodes
-      /\ SeqBag(ObsEdges(e)) = G.edges
-      /\ Cardinality(ObsEntries(e)) = Len(e.entries)
-      /\ ObsEntries(e) = {<<t, EN[t]>> : t \in DOMAIN EN}
+GraphOK(e, P) == GraphMatches(e.nodes, e.edges, e.entries, P)
 
 \* A program that is not well-formed is outside the property's quantifier: it is skipped (and
 \* counted by the driver), never blamed on the graph builder.
